@@ -67,17 +67,18 @@ WbStep(cfg, s, e, gap) ==        \* -> [s |-> state, bad |-> set of diagnostics,
         bad |-> IF s.pend THEN {<<"access not acknowledged within the bound", WbCtx(s), IF s.acc.we = 1 THEN "write" ELSE "read", s.acc.a>>}
                 ELSE {<<"ENV: TIMEOUT reported while no access is open">>},
         tags |-> {"timeout"}]
-  [] e.c = "MEM" ->       \* final contents of native word e.a of the backing memory
-       LET base == e.a * cfg.pb
-           wrong == BmWrongLanes(s.mem, base, cfg.pb, BmAllOnes(cfg.pb), e.d) IN
-       [s |-> [s EXCEPT !.dumped = s.dumped \cup {e.a}],
-        bad |-> {<<"final memory content is not what the accesses left", WbCtx(s), e.a, k, e.d[k + 1], BmGet(s.mem, base + k)>> : k \in wrong},
-        tags |-> {"mem"}]
+  [] e.c = "MEM" ->       \* final contents of native word e.a of the backing memory (an access still open was dropped)
+       LET s0 == IF s.pend THEN WbAbort(cfg, s) ELSE s
+           base == e.a * cfg.pb
+           wrong == BmWrongLanes(s0.mem, base, cfg.pb, BmAllOnes(cfg.pb), e.d) IN
+       [s |-> [s0 EXCEPT !.dumped = s0.dumped \cup {e.a}],
+        bad |-> {<<"final memory content is not what the accesses left", WbCtx(s0), e.a, k, e.d[k + 1], BmGet(s0.mem, base + k)>> : k \in wrong},
+        tags |-> {"mem"} \cup (IF s.pend THEN {IF s.acc.we = 1 THEN "abort-write" ELSE "abort-read"} ELSE {})]
   [] e.c = "END" ->
-       [s |-> s,
-        bad |-> (IF s.pend THEN {<<"ENV: trace ends inside an access">>} ELSE {})
-                \cup (IF \E B \in DOMAIN s.mem : (B \div cfg.pb) \notin s.dumped
-                      THEN {<<"ENV: a written native word was not dumped">>} ELSE {}),
-        tags |-> {"end"}]
+       LET s0 == IF s.pend THEN WbAbort(cfg, s) ELSE s IN
+       [s |-> s0,
+        bad |-> (IF \E B \in DOMAIN s0.mem : (B \div cfg.pb) \notin s0.dumped
+                 THEN {<<"ENV: a written native word was not dumped">>} ELSE {}),
+        tags |-> {"end"} \cup (IF s.pend THEN {IF s.acc.we = 1 THEN "abort-write" ELSE "abort-read"} ELSE {})]
   [] OTHER -> [s |-> s, bad |-> {<<"ENV: unknown event">>}, tags |-> {}]
 ====
